@@ -4,7 +4,9 @@ For a property P:
   * every seeded mutant that seeded/expected.json lists for P is applied to a scratch copy of the *current* /repo/signac
     and P's quick check must exit 1 on it (the rule fires);
   * every benign variant (seeded/benign/*.json, behaviour-preserving edits) that touches code P looks at is applied and
-    P's quick check must exit 0 (the rule stays silent).
+    P's quick check must exit 0 (the rule stays silent);
+  * every whole-package transformation of sigstat.transforms (re-emit, rename all locals, constant-first comparisons,
+    swapped if/else, hoisted return values, sorted keyword arguments, aliased imports) is applied and P's quick check must exit 0.
 A variant whose patch / text no longer applies to the current tree is reported as stale and skipped.
 Scratch copies live under $TMPDIR (outside /repo and /verif) and are removed immediately.
 """
@@ -68,6 +70,21 @@ def _benign(prop, repo, path):
         shutil.rmtree(tmp, ignore_errors=True)
 
 
+def _transformed(prop, repo, mode):
+    """Whole-package behaviour-preserving transformation (sigstat.transforms): the check must stay silent."""
+    from . import transforms
+    tmp = _scratch(repo)
+    try:
+        try:
+            transforms.transform(mode, os.path.join(tmp, "signac"))
+        except Exception as e:  # the transformation itself failed (e.g. new syntax): not the checker's fault
+            return "auto:" + mode, "stale", [f"transformation failed: {type(e).__name__}: {e}"]
+        code, lines = _run_check(prop, tmp)
+        return "auto:" + mode, ("silent" if code == 0 else ("FLAGGED" if code == 1 else "BROKE-ANALYSIS")), lines[:2]
+    finally:
+        shutil.rmtree(tmp, ignore_errors=True)
+
+
 def run_for_property(prop, repo):
     exp_path = os.path.join(SEEDED, "expected.json")
     expected = json.load(open(exp_path)) if os.path.isfile(exp_path) else {}
@@ -85,8 +102,10 @@ def run_for_property(prop, repo):
     with ThreadPoolExecutor(max_workers=min(16, (os.cpu_count() or 4))) as ex:
         fm = [ex.submit(_mutant, prop, repo, m) for m in mutants]
         fb = [ex.submit(_benign, prop, repo, b) for b in benign]
+        from . import transforms
+        ft = [ex.submit(_transformed, prop, repo, m) for m in transforms.MODES]
         res_m = [f.result() for f in fm]
-        res_b = [f.result() for f in fb]
+        res_b = [f.result() for f in fb] + [f.result() for f in ft]
     for mid, status, det in res_m:
         if status == "MISSED" or status == "inconclusive":
             failed = True
